@@ -82,7 +82,7 @@ func main() {
 		}
 		return c
 	}
-	n := hv.Scale(1500, 40000)
+	n := hv.Scale(1500, 10000)
 	for k := 0; k < n; k++ {
 		var ops []op
 		top := uint64(0)
